@@ -200,6 +200,7 @@ def g3_boundaries(full):
          "def g():\n    return 0\n    y = (a,\n" + "\n" * 126 + "         (b,\n          (\n" + "\n" * 126 + "          c,)))\n", "exec"),
         ("g3:int_beyond_the_decimal_conversion_limit", "x = 0x" + "f" * 5000 + "\ny = (-0x" + "f" * 4000 + ", 1, 'a')\ndef f():\n    return 0x1" + "0" * 6000 + "\n", "exec"),
         ("g3:sibling_code_with_colliding_hashes", "fs = [lambda: -1, lambda: -2]\ngs = [(lambda: (-1, 'x')), (lambda: (-2, 'x'))]\ndef f():\n    return [lambda: -1, lambda: -2]\n", "exec"),
+        ("g3:surrogate_strings_with_quotes", "a = '\\'\\ud800'\nb = '\\ud800\\''\nc = '\"\\ud800\"'\nd = '\\udc80\\\\'\ne = (\"''\\udc80''\", 1)\ndef f(x='\\'\\ud800\\''):\n    '\\'doc \\ud800\\''\n    return x\n", "exec"),
         ("g3:merged_code_consts", "def ratio(xs, ys):\n    return sum(x*x for x in xs) / sum(x*x for x in ys)\nf = (lambda: 1), (lambda: 1)\ng = [i for i in a], [i for i in a]\n", "exec"),
         ("g3:dead_nested_after_return", "def live():\n    return 1\n    def dead():\n        return 2\n    class Dead:\n        pass\n", "exec"),
         ("g3:barry", "from __future__ import barry_as_FLUFL\nx = 1\ndef f(): return x\n", "exec"),
